@@ -538,6 +538,9 @@ public:
   {
     if (hasNode(nodeObject))
       throw Exception("AssociationGraphImplObserver::associateNode : node already exists: " + nodeToString(nodeObject));
+    getGraph()->nodeMustExist_(graphNode, "node to associate");
+    if (getNodeFromGraphid(graphNode) != 00)
+      throw Exception("AssociationGraphImplObserver::associateNode : graph node already has an object: " + TextTools::toString(graphNode));
 
     // nodes vector must be the right size. Eg: to store a node with
     // the ID 3, the vector must be of size 4: {0,1,2,3} (size = 4)
@@ -558,6 +561,9 @@ public:
   {
     if (hasEdge(edgeObject))
       throw Exception("AssociationGraphImplObserver::associateEdge : edge already exists: " + edgeToString(edgeObject));
+    getGraph()->edgeMustExist_(graphEdge, "edge to associate");
+    if (getEdgeFromGraphid(graphEdge) != 00)
+      throw Exception("AssociationGraphImplObserver::associateEdge : graph edge already has an object: " + TextTools::toString(graphEdge));
 
     // edges vector must be the right size. Eg: to store an edge with
     // the ID 3, the vector must be of size 4: {0,1,2,3} (size = 4)
